@@ -286,3 +286,5 @@ def control_forget(ctx):
 
 
 CONTROLS = [control_forget]
+
+WITNESSES = {"C06PermitPrivate": ("E0616", "the permit of a pending sink is private")}
